@@ -17,6 +17,15 @@ CHECKS = {
     'C11': dict(cat='other', tech='per-backend MIR dump -> symbolic execution -> SMT equality with one reference polynomial',
                 text='Solver-decided, bounded: the predicate of every buildable backend (ibig, dashu, malachite, num_bigint; quick: ibig + one seeded other) equals the same reference determinant sign on [0,2^52)^15, hence pairwise agreement. rug is outside (not buildable).',
                 note=TRUST_M + '; each big-integer crate implements Z exactly', ref='DESIGN.md 4 C11'),
+    'C03': dict(cat='other', tech='symbolic execution of the MIR of the face-construction closure and of the periodic-image code -> SMT (uninterpreted mask, symbolic labels)',
+                text='Solver-decided for every mask (uninterpreted array of any length), all labels i != j and all label/dimension combinations: an unshifted face between two cells is constructed by exactly one of two constructed cells (the lower index), by the constructed one if only one is, shifted/wall faces always by their own cell, never for normals outside the active subspace; recorded left/right/shift are the plane\'s; reported periodic shift = -(query shift), absent iff zero; the image set is exactly {-w,0,w}^d and closed under negation. Geometric equality of the two sides (area, centroid) is outside.',
+                note=TRUST_M + '; std Option/Vec/iterator semantics modelled positionally', ref='DESIGN.md 4 C03'),
+    'C07': dict(cat='other', tech='symbolic execution of the MIR of the per-cell build closures, the face rule and build_partial -> SMT',
+                text='Solver-decided for every mask: the mask reaches a tessellation only through the build guard (exactly "absent or mask[idx]") and the face rule; unselected cells are zero volume/centroid with their own index and no faces; the arguments of ConvexCell::build do not contain the mask; selected-unselected faces exist exactly once with the selected cell on the left; build_partial forwards the caller\'s mask (all 2^3 masks of length 3). The construction of a single ConvexCell is not encoded.',
+                note=TRUST_M + '; std Option/Vec/iterator semantics modelled positionally', ref='DESIGN.md 4 C07'),
+    'C13': dict(cat='other', tech='symbolic execution of the MIR of the two face-integral loops, the conversion closures and the box normalisation -> SMT',
+                text='Solver-decided for enumerated plane labels x symbolic indices/mask on a 3-plane / 5-tetrahedra harness list: symmetric = non-symmetric minus exactly the unshifted planes towards a constructed lower-index neighbour, plane order, labels, one delivery of each tetrahedron to its own plane; face rule with mask None = all-true mask; identical 1D/2D box normalisation on both routes. Integrator side only; bitwise agreement with the r-tree route and of float sums is outside.',
+                note=TRUST_M + '; std Option/Vec/iterator semantics modelled positionally', ref='DESIGN.md 4 C13'),
     'C19': dict(cat='other', tech='symbolic execution of each helper\'s MIR -> polynomial identities over R decided by z3 (cvc5 / z3-4.8 cross-check), native replay of counterexamples',
                 text='Solver-decided for all real arguments under the documented non-degeneracy: the defining equations of intersect_planes, Plane::project_onto(_intersection), signed_volume_tet, signed_area_tri, Sphere::from_{two,three,four}_points, Sphere::extend and the float in-sphere polynomial hold as identities of the arithmetic the compiler sees (f64 read as exact reals; rounding and conditioning outside the claim).',
                 note=TRUST_M, ref='DESIGN.md 4 C19'),
